@@ -385,7 +385,16 @@ func runC16(c c16Case) Verdict {
 	}
 	cls := []string{"kind=" + c.Kind}
 	if regErr != nil {
-		return Verdict{NonTrivial: false, Classes: append(cls, "refused")}
+		// a refused registration registers nothing: the script's call is an ordinary "unknown function/command" error
+		h := &host{dr: dr, storer: newRecStorer()}
+		ev := h.step(0)
+		if ev.K == "panic" {
+			return failf("registering %s was refused (%v); calling the name afterwards as %s panicked: %s", sig, regErr, stmt, ev.Text)
+		}
+		if ev.K != "err" {
+			return failf("registering %s was refused (%v); calling the name afterwards as %s must be an error, got %s (host function calls: %v)", sig, regErr, stmt, ev, probe.calls)
+		}
+		return Verdict{NonTrivial: c.Kind != "nonfunc", Classes: append(cls, "refused", "called-after-refusal")}
 	}
 	cls = append(cls, "accepted")
 	if c.Kind == "nonfunc" {
